@@ -372,9 +372,16 @@ def _judge_seq(va, vb, op, out, level, mosw, add, prop_order, prop_cons):
             add('C06.count', '%s: warnings %s, expected %s' % (t, dict(got), dict(want)))
 
     # ---- order (C01 / C02) -------------------------------------------------------------
+    if an.dup_or_apply and seqB == an.expected and got[DUP]:
+        add('C06.spurious', '%s applied every carried element but warned %s' % (t, dict(got)))
     if seqB != an.expected:
         if an.dup_or_apply:
-            return      # colliding carried ids may be skipped instead; only frame and warnings are judged
+            # colliding carried ids may be skipped instead - but then each skipped one is reported
+            n_skipped = len(an.expected) - len(seqB)
+            if n_skipped > 0 and got[DUP] != n_skipped and sum(1 for x in seqB if x not in seqA) < len(carried_nodes_):
+                add('C06.silent' if not got[DUP] else 'C06.count',
+                    '%s skipped %d carried element(s) whose id is already there, DuplicateStoryWarning x %d' % (t, n_skipped, got[DUP]))
+            return
         if an.unresolved or an.dups:
             # C01 / C02 speak of messages whose references resolve; what happens to the remaining elements of a
             # message with an unresolvable element is C06's business
